@@ -694,7 +694,10 @@ func c12Monitor(c ACase, o aObs) string {
 // ---- C04 ----------------------------------------------------------------------------------------
 
 var c04Bodies = []string{"", "a=b", "msg=audit(1.000:2): x=1", "pid=1 msg='op=login acct=\"root\" res=success'", ") : ( . :", "record_type=X sequence=9 raw_msg=zz @timestamp=never tags=t error=e",
-	"type=USER msg=audit(9.999:9):", "arch=c000003e syscall=2 success=yes exit=3", "  leading and trailing  ", "\t x=1 ", "a=1 )", "(((", "msg=", "key=\"x\""}
+	"type=USER msg=audit(9.999:9):", "arch=c000003e syscall=2 success=yes exit=3", "  leading and trailing  ", "\t x=1 ", "a=1 )", "(((", "msg=", "key=\"x\"",
+	// what auditd appends with log_format=ENRICHED (a group separator, then upper-case keys), and other control bytes in front of keys
+	"arch=c000003e syscall=2 auid=1000 uid=0\x1dARCH=x86_64 SYSCALL=open AUID=\"root\" UID=\"root\"", "a=b\x1dX=1", "a=b \x1d", "\x1dARCH=x86_64", "a=b\x1eB=2", "a=b\x1fC=3", "a=b\x00D=4", "a=b\x7fE=5", "a=b\x1darch=lower",
+	"a=b\x1d\x1dARCH=x", "a=b\x0bK=1", "a=b\x0cK=2", "a=b\x1cK=3", "a=b\x85K=4"}
 
 func genC04(rng *rand.Rand, typ int) ACase {
 	h := &AHdr{Typ: typ}
@@ -934,7 +937,7 @@ func c04Monitor(c ACase, o aObs) string {
 
 // ---- C05 mutation stream ---------------------------------------------------------------------------
 
-var c05Dict = []string{"node=", "node=h ", "msg=", "type=", "audit(", "):", " ", "=", "\"", "'", "\\\"", "\\'", "avc:", " denied ", "{ ", " } for ", "old ", "new ", " (hostname=", ")'", "saddr=", "argc=", "a0=", "a1=",
+var c05Dict = []string{"\x1dARCH=x86_64 SYSCALL=open", "\x1d", "node=", "node=h ", "msg=", "type=", "audit(", "):", " ", "=", "\"", "'", "\\\"", "\\'", "avc:", " denied ", "{ ", " } for ", "old ", "new ", " (hostname=", ")'", "saddr=", "argc=", "a0=", "a1=",
 	"arch=", "syscall=", "success=", "res=", "exit=", "key=", "subj=", "obj=", "proctitle=", "cmd=", "data=", "cwd=", "exe=", "name=", "acct=", "sig=", "auid=", "ses=", "old-auid=", "4294967295", "-1", "?", "?,", "(null)",
 	"0200", "0A00", "0100", "1000", "c000003e", "40000003", "FFFFFFFF", "00", "\x00", "\x01", ":", "::", " ", " ", "\xff", "-9223372036854775808", "9223372036854775807", "99999999999999999999"}
 
@@ -1603,6 +1606,19 @@ func auparseFamily(ctx *Ctx) error {
 					fmt.Fprintf(&args, " a%d=%d", i, i%10)
 				}
 				run(mkACase("data", 1309, args.String()), false, true, "decimal-ladder")
+			}
+		}
+		// depth rather than length: one token of the parser's vocabulary repeated k times in a row (a value that is itself a
+		// key=value text is parsed again, level by level); every case runs under the 20 s watchdog
+		for _, tok := range []string{"msg=", "msg='", "msg=\"", "msg=audit(1.000:1): ", "a=", "key=", "saddr=", "'", "\"", "(", "{ ", "avc:  denied  { ", "old ", "new ", "=", "msg=msg='", "argc=", "a0=a1=", "subj=a:", ":", "proctitle=", "type="} {
+			for _, k := range []int{2, 3, 5, 8, 13, 21, 34, 55, 89, 200} {
+				if res.NumViolations() >= 2 {
+					break // a case that does not return costs the watchdog's 20 s
+				}
+				body := strings.Repeat(tok, k) + "a=b"
+				run(mkACase("data", 1112, "audit(1.000:1): pid=1 "+body), false, true, "repetition-ladder")
+				run(mkACase("data", 1400, "audit(1.000:1): "+body), false, true, "repetition-ladder")
+				run(mkACase("line", 0, "type=USER_LOGIN msg=audit(1.000:1): "+body+strings.Repeat("'", k)), false, true, "repetition-ladder")
 			}
 		}
 		// lines as other writers of audit logs prefix them (auditd with name_format set writes node=HOST first; syslog
